@@ -8,9 +8,10 @@ for f in sorted(glob.glob('/verif/seeded/*/meta.json')):
     site = next((l[6:] for l in patch.splitlines() if l.startswith('+++ b/')), '?')
     c = m.get('confirmed', {})
     ok = c.get('suite_failed') == 0 and c.get('demo_exit_with_mutant') not in (0, None) and c.get('demo_exit_without') == 0
-    rows.append((m['id'], site, 'yes' if ok else 'NO', ', '.join(m['caught_by']) or 'MISSED', (m.get('first_reports') or [''])[0].replace('|', '/')[:110]))
+    rows.append((m['id'], site, 'yes' if ok else 'NO', ', '.join(m['caught_by']) or ('not a violation (see meta.json)' if m.get('judgement') else 'MISSED'), (m.get('first_reports') or [''])[0].replace('|', '/')[:110]))
 print('| change | site | confirmed (suite 863/0, demo fails with / passes without) | caught by | first report |')
 print('|---|---|---|---|---|')
 for r in rows:
     print('| ' + ' | '.join(r) + ' |')
-print(f'\n{len(rows)} seeded changes, {sum(1 for r in rows if r[3] != "MISSED")} caught.')
+nv = sum(1 for r in rows if r[3].startswith('not a violation'))
+print(f'\n{len(rows)} seeded changes kept; {nv} judged not to break its property; {sum(1 for r in rows if r[3] != "MISSED") - nv} of the other {len(rows) - nv} caught.')
